@@ -345,7 +345,7 @@ fn one_case(t: i32, i: usize, ctx: &Ctx, rep: &mut Report) {
 }
 
 pub fn run(ctx: &Ctx) -> Report {
-    let n = if cfg!(miri) { 3 } else { ctx.pick(250, 10_000) };
+    let n = if cfg!(miri) { 3 } else { ctx.pick(2_000, 60_000) };
     let mut rep = par(ctx, TYPES.len() * n, |idx, rep| one_case(TYPES[idx / n], idx % n, ctx, rep));
     if ctx.only.is_none() {
         let h = rep.counters.get("header_box_components_checked").copied().unwrap_or(0);
